@@ -21,9 +21,6 @@ func (g *genState) tree(depth int, focus string) sx.Tree {
 		disabled = true
 	}
 	disc := r.Chance(22)
-	if depth == 0 {
-		disc = false // roots: see DESIGN.md (main loop ignores the flag); exercised separately
-	}
 	kids := []sx.Tree{}
 	if depth < 3 && g.nodes < 9 {
 		nk := sx.Pick(r, 0, 1, 1, 2, 2, 3)
